@@ -225,11 +225,13 @@ int main(int argc, char** argv)
             for (int el : {NORMAL, NOBAN, OUT_FULL})
                 for (int conn = 0; conn < 2; conn++)
                     for (int pe = 0; pe < 2; pe++) { Dist d = keys_of(k); d.elig = el; d.conn = conn; d.prefer_evict = pe; As.push_back(d); }
+        std::vector<Dist> Bs_small; // B restricted to levels {best, worst}: used in the quick tier and for n=130
         for (unsigned k = 0; k < 256; k++) {
-            if (!big && ((k & 3) % 3 || ((k >> 2) & 3) % 3 || ((k >> 4) & 3) % 3 || ((k >> 6) & 3) % 3)) continue; // quick: levels {best, worst} only
+            const bool extreme = !((k & 3) % 3 || ((k >> 2) & 3) % 3 || ((k >> 4) & 3) % 3 || ((k >> 6) & 3) % 3);
             for (int el : {NORMAL, NOBAN})
-                for (int conn = 0; conn < 2; conn++) { Dist d = keys_of(k); d.elig = el; d.conn = conn; Bs.push_back(d); }
+                for (int conn = 0; conn < 2; conn++) { Dist d = keys_of(k); d.elig = el; d.conn = conn; if (big) Bs.push_back(d); if (extreme) Bs_small.push_back(d); }
         }
+        if (!big) Bs = Bs_small;
         std::vector<int> Ns = {0, 1, 2, 3, 4, 5, 6, 8, 12, 13, 16, 17, 20, 21, 22, 24, 25, 28, 29, 30, 40, 130};
         uint64_t total = 0;
         for (int n : Ns) {
@@ -239,7 +241,7 @@ int main(int argc, char** argv)
                     if (rev && !(big || n == 21 || n == 22)) continue;
                     if (rev && n == 130) continue;
                     if (deadline()) break;
-                    const std::vector<Dist>& Bset = Bs;
+                    const std::vector<Dist>& Bset = n >= 100 ? Bs_small : Bs;
                     size_t na = n >= 1 ? As.size() : 1, nb = n >= 2 ? Bset.size() : 1;
                     vx::par_for(na * nb, 2048, [&](uint64_t lo, uint64_t hi, unsigned) {
                         for (uint64_t i = lo; i < hi; i++) {
@@ -334,7 +336,7 @@ int main(int argc, char** argv)
     E.set("victim_just_outside_blocktime_quota", g_boundary[3].load());
     E.set("noban_flag_decisive", g_flag_decisive_noban.load());
     E.set("non_inbound_decisive", g_flag_decisive_outbound.load());
-    E.rule = "cross products: family 'keys' = n in {0..6,8,12,13,16,17,20,21,22,24,25,28,29,30,40,130} x filler mode {plain, with 8 block-relay-only fillers} x input order {as built, reversed} x candidate A (4 levels on each of netgroup/ping/tx time/block time = best, strictly inside the quota, tied with the last protected filler, worst; x {inbound, noban, outbound} x {oldest, youngest} x prefer_evict) x candidate B (same key levels (quick: best/worst only) x {inbound, noban} x {oldest, youngest}); "
+    E.rule = "cross products: family 'keys' = n in {0..6,8,12,13,16,17,20,21,22,24,25,28,29,30,40,130} x filler mode {plain, with 8 block-relay-only fillers} x input order {as built, reversed} x candidate A (4 levels on each of netgroup/ping/tx time/block time = best, strictly inside the quota, tied with the last protected filler, worst; x {inbound, noban, outbound} x {oldest, youngest} x prefer_evict) x candidate B (same key levels (quick tier and n=130: best/worst only) x {inbound, noban} x {oldest, youngest}); reversed order: thorough all n<130, quick n=21,22; "
              "family 'nets' = mixed-network fillers x A (best/worst keys x 8 connection/permission kinds x 6 network kinds x 3 uptime ranks x prefer_evict/relay_txs/bloom/relevant-services) x B (6 networks x 3 uptime ranks x flags); family 'perm' = all input permutations for n<=5(6). "
              "evaluations = candidate vectors passed to SelectNodeToEvict and checked; distinct_nontrivial = distinct outcome classes (n, evictable count, block-relay-only count, the victim's number of at-least-as-good rivals per key capped just above the quota, its network and prefer_evict) incl. 'nobody' classes";
     E.assume("evictable candidate = inbound and not noban; protection quotas are evaluated among evictable candidates (peers removed first do not use up quota)");
